@@ -296,7 +296,8 @@ var ScriptToLang = map[Script]LangID{
 	Tibetan:             LangBo,
 	Canadian_Aboriginal: LangIu,
 	Yi:                  0,
-	Tagalog:             LangTl,
+	// 'tl' is written with the Latin script
+	Tagalog: 0,
 	// Phillipino Languages/scripts
 	Hanunoo:  LangHnn,
 	Buhid:    LangBku,
